@@ -797,6 +797,95 @@ def check_modes(chk, case):
                      {"modes_seen": sorted(set(info["modes"])), "stats_changed": info["stats_changed"]})
 
 
+# ------------------------------------------------------------------ video provider with a frame range
+def check_video_ranges(chk, case):
+    """VideoReader driven with `video_start_idx` / `video_end_idx`: ranges that start after frame 0 and/or end
+    before the last frame.  Every frame's pixels carry its own code, so each output row is tied to the
+    CONTENT it was computed from: the rows must be exactly the frames start … end−1, in order, each carrying
+    the TRUE frame index of the frame whose pixels produced it, and equal to that frame's rows of the full run."""
+    if False:
+        yield []
+    kind = "single" if case["pipeline"] == "single" else "topdown"
+    impl = impl_single if kind == "single" else impl_topdown
+    td = kind == "topdown"
+    vids = frames_of(case)
+    v0 = vids[0]
+    n = len(v0)
+    base = {**case, "order": None}
+    try:
+        full = impl(base, "VideoReader", vids)[0]
+    except stubs.StubAmbiguous:
+        chk.tag("stub_ambiguous_skipped")
+        return
+    except Exception as e:
+        chk.fail(f"C12: {kind} VideoReader run raised {type(e).__name__}: {str(e)[:160]}", case, None)
+        return
+    full_by = rows_by_code(full)
+    ranges = [(1, None), (3, None), (n - 2, None), (1, n - 1), (None, n - 1), (2, 4)]
+    for (a, b) in ranges:
+        lo, hi = (0 if a is None else a), (n if b is None else b)
+        if not (0 <= lo < hi <= n):
+            continue
+        small = {**case, "video_range": [a, b]}
+        try:
+            rows = impl({**base, "video_range": (a, b)}, "VideoReader", vids)[0]
+        except stubs.StubAmbiguous:
+            chk.tag("stub_ambiguous_skipped")
+            continue
+        except Exception as e:
+            chk.disagree("implementation raised where the model does not", small, f"raise:{type(e).__name__}: {str(e)[:200]}", "ok")
+            chk.fail(f"C12: {kind} VideoReader with frame range [{a}, {b}) raised {type(e).__name__}: {str(e)[:160]}", small, None)
+            continue
+        want = v0[lo:hi]
+        chk.case((kind, "video_range", a, b, json.dumps(case, sort_keys=True)),
+                 {"case": "video_range", "kind": kind, "range": [a, b], "n_frames": n, "B": case["batch"],
+                  "rows": [[r["code"], r["fidx"]] for r in rows][:8]},
+                 tags=["video_range", kind, "range_starts_after_0" if lo > 0 else "range_starts_at_0",
+                       "range_ends_early" if hi < n else "range_to_the_end"])
+        why = []
+        by = rows_by_code(rows)
+        seen_codes = [r["code"] for r in rows]
+        want_codes = [f.code for f in want if (not td or f.animals)]
+        uniq = [c for i, c in enumerate(seen_codes) if i == 0 or seen_codes[i - 1] != c]
+        if uniq != want_codes:
+            why.append(f"range [{a}, {b}) of {n} frames: rows were computed from frames "
+                       f"{[next(f.frame_idx for f in v0 if f.code == c) for c in uniq]}, expected {[f.frame_idx for f in want if (not td or f.animals)]}")
+        for fr in want:
+            for r in by.get(fr.code, []):
+                if (r["fidx"], r["vidx"]) != (fr.frame_idx, 0):
+                    why.append(f"range [{a}, {b}): row computed from the pixels of frame {fr.frame_idx} carries frame_idx {r['fidx']}")
+                    break
+            ra, rb = by.get(fr.code, []), full_by.get(fr.code, [])
+            if len(ra) == len(rb) and ra and any(x["fidx"] != y["fidx"] for x, y in zip(ra, rb)):
+                continue     # already reported above
+            if not same_rows(ra, rb, td):
+                why.append(f"range [{a}, {b}): records of frame {fr.frame_idx} differ from the same frame in the full run")
+        if why:
+            chk.fail(f"C12 fails on {kind} inference through VideoReader with a frame range: " + "; ".join(why[:3]), small,
+                     {"rows": [[r["code"], r["fidx"], r["vidx"]] for r in rows][:10]})
+
+
+def gen_video_range(rng, i):
+    """one video of 5–6 distinguishable frames, dense indices, for the video provider's frame ranges"""
+    case = gen_single(rng, i) if i % 2 == 0 else gen_topdown(rng, i)
+    case["videos"] = case["videos"][:1]
+    v = case["videos"][0]
+    for f in v:
+        f.pop("frame_idx", None)
+    while len(v) < 5 + (i % 2):
+        f = json.loads(json.dumps(v[rng.randrange(len(v))]))
+        if case["pipeline"] == "single":
+            for a in f["animals"]:
+                a["pts"] = [None if p is None else [min(max(p[0] + rng.choice([-1.5, 1.0, 2.5]), 1.0), f["W"] - 2.0), p[1]]
+                            for p in a["pts"]]
+        v.append(f)
+    case.pop("same_filename", None)
+    case["max_hw"] = case["max_hw"]
+    case["ranges"] = True
+    case["batch"] = rng.randrange(1, 4)
+    return case
+
+
 # ------------------------------------------------------------------ generators
 def add_order(rng, case, subset=True):
     universe = [(vi, k) for vi, v in enumerate(case["videos"]) for k in range(len(v))]
@@ -937,6 +1026,8 @@ def bias_undershoot(rng, i):
 
 
 def case_gen(chk, case):
+    if case.get("ranges"):
+        return check_video_ranges(chk, case)
     if case.get("modes"):
         return check_modes(chk, case)
     if case["pipeline"] == "gt":
@@ -1384,6 +1475,8 @@ def main(chk: Check):
             base["batch"] = 2
         base["modes"] = True
         cases.append(base)
+    for i in range(chk.n(6, 60)):
+        cases.append(gen_video_range(rng, i))
     for i in range(chk.n(18, 180)):
         cases.append(gen_gt(rng, i))
     for i in range(chk.n(6, 60)):
